@@ -18,6 +18,9 @@ from . import terms as tm
 from .ring import ST, Cx, Dual, Frac
 
 Z3 = os.environ.get("VERIF_Z3", "z3-new")
+# true polynomial identities are decided in milliseconds; when one is not, the staged
+# reasoning (rewriting, side facts) is the way forward, so stage 1 gets a short budget
+STAGE1_TIMEOUT = float(os.environ.get("VERIF_STAGE1_TIMEOUT", "8"))
 STATS = {"queries": 0, "solver_s": 0.0, "unsat": 0, "sat": 0, "unknown": 0}
 
 
@@ -265,11 +268,43 @@ def differs(a, b, tol=1e-7):
 # --------------------------------------------------------------------------
 
 
-def rewrite_radicals(t: tm.T):
+def _substitute_var(p, vid, rp):
+    new = tm.Poly()
+    for m, c in p.d.items():
+        e = dict(m).get(vid, 0)
+        if e:
+            rest = tuple((v, k) for v, k in m if v != vid)
+            new = new + (tm.Poly({rest: c}) * (rp ** e))
+        else:
+            new = new + tm.Poly({m: c})
+    return new
+
+
+def rewrite_radicals(t: tm.T, equations=()):
     """Normal form of t with every radical symbol reduced to degree <= 1 using
-    sym^2 -> radicand.  Returns a Poly or None."""
+    sym^2 -> radicand, and with oriented lemma equations `app = rhs` (app an opaque
+    uninterpreted application) applied as app -> rhs.  Returns a Poly or None."""
     p = tm.to_poly(t)
     if p is None:
+        return None
+    try:
+        for _ in range(8):
+            hit = False
+            for e in equations:
+                if e.op != "eq":
+                    continue
+                lhs, rhs = e.args
+                if lhs.op != "uf":
+                    continue
+                if p.degree_in(lhs.id) >= 1:
+                    rp = tm.to_poly(rhs)
+                    if rp is None or lhs.id in rp.vars():
+                        continue
+                    p = _substitute_var(p, lhs.id, rp)
+                    hit = True
+            if not hit:
+                break
+    except tm.PolyTooBig:
         return None
     radvars = {}
     for name, (sym, radt) in ST.rad_by_name.items():
@@ -347,7 +382,7 @@ def prove_zero(diff: tm.T, assumptions=(), timeout=20, lemma_instances=(), seed=
         pass
     goal = tm.ne(diff, tm.const(0))
     # stage 1: assumption-free identity
-    v, out = run_z3(tm.to_smt2([goal], comments=[label, "stage 1: identity"]), timeout)
+    v, out = run_z3(tm.to_smt2([goal], comments=[label, "stage 1: identity"]), min(timeout, STAGE1_TIMEOUT))
     if v == "unsat":
         return Result("proved", 1, query_s=time.time() - t0, size=sz)
     cand_env = None
@@ -356,29 +391,27 @@ def prove_zero(diff: tm.T, assumptions=(), timeout=20, lemma_instances=(), seed=
         v2, out = run_z3(tm.to_smt2([goal]), timeout, want_model=True)
         cand_env = parse_model(out) if v2 == "sat" else None
     else:
-        # stage 2: with definitional facts, non-zero denominators, domains, lemmas
         A = side_assumptions(list(assumptions) + list(lemma_instances))
+        # stage 3: rewrite even radical powers / oriented lemma equations in the polynomial
+        # normal form, then ask the solver about the rewritten term
+        v2 = "unknown"
+        if ST.rad_by_name or lemma_instances:
+            p = rewrite_radicals(diff, lemma_instances)
+            if p is not None:
+                rt = tm.poly_to_term(p)
+                g3 = tm.ne(rt, tm.const(0))
+                v3, _ = run_z3(
+                    tm.to_smt2([g3], comments=[label, "stage 3: radicals/lemma equations rewritten"]),
+                    timeout,
+                )
+                if v3 == "unsat":
+                    return Result("proved", 3, query_s=time.time() - t0, size=sz)
+        # stage 2: with definitional facts, non-zero denominators, domains, lemmas
         v2, out2 = run_z3(
             tm.to_smt2(A + [goal], comments=[label, "stage 2: with side facts"]), timeout
         )
         if v2 == "unsat":
             return Result("proved", 2, query_s=time.time() - t0, size=sz)
-        # stage 3: rewrite even radical powers, then ask the solver again
-        if ST.rad_by_name:
-            p = rewrite_radicals(diff)
-            if p is not None:
-                rt = tm.poly_to_term(p)
-                g3 = tm.ne(rt, tm.const(0))
-                v3, _ = run_z3(
-                    tm.to_smt2([g3], comments=[label, "stage 3: radicals rewritten (y^2 -> x)"]),
-                    timeout,
-                )
-                if v3 == "unsat":
-                    return Result("proved", 3, query_s=time.time() - t0, size=sz)
-                if v3 != "unsat":
-                    v4, _ = run_z3(tm.to_smt2(A + [g3], comments=[label, "stage 3b"]), timeout)
-                    if v4 == "unsat":
-                        return Result("proved", 3, query_s=time.time() - t0, size=sz)
         if v2 == "sat":
             _, outm = run_z3(tm.to_smt2(A + [goal]), timeout, want_model=True)
             cand_env = parse_model(outm)
@@ -405,9 +438,13 @@ def prove_zero(diff: tm.T, assumptions=(), timeout=20, lemma_instances=(), seed=
             if not ok or any(x == 0 for x in nz):
                 continue
             val = tm.evaluate([diff], env, UF_FLOAT)[0]
+            parts = diff.args if diff.op == "add" else (diff,)
+            scale = sum(abs(float(v)) for v in tm.evaluate(list(parts), env, UF_FLOAT))
         except (ValueError, ZeroDivisionError, OverflowError, KeyError):
             continue
-        if differs(val, 0):
+        exact = isinstance(val, (int, Fraction))
+        if (exact and val != 0) or (not exact and abs(float(val)) > 1e-6 * (scale + 1e-300)
+                                    and math.isfinite(float(val)) and math.isfinite(scale)):
             wit = {k: (str(v) if isinstance(v, Fraction) else v) for k, v in env.items()}
             return Result(
                 "violated", kind, witness={"env": wit, "diff_value": str(val)},
@@ -460,11 +497,12 @@ def prove_all_zero(diffs, assumptions=(), timeout=20, lemma_instances=(), seed=0
             return Result("proved", 0, query_s=time.time() - t0, size=sz)
         return Result("inconclusive", None, detail="trivial query not unsat")
     goal = tm.or_(*[tm.ne(d, tm.const(0)) for d in nz])
-    v, _ = run_z3(tm.to_smt2([goal], comments=[label, "stage 1: identity (disjunction)"]), timeout)
+    v, _ = run_z3(tm.to_smt2([goal], comments=[label, "stage 1: identity (disjunction)"]),
+                  min(timeout, STAGE1_TIMEOUT))
     if v == "unsat":
         return Result("proved", 1, query_s=time.time() - t0, size=sz)
     have_side = bool(ST.facts or ST.domain or assumptions or lemma_instances or ST.nonzero)
-    if have_side:
+    if have_side and not (ST.rad_by_name or lemma_instances):
         A = side_assumptions(list(assumptions) + list(lemma_instances))
         v2, _ = run_z3(tm.to_smt2(A + [goal], comments=[label, "stage 2 (disjunction)"]), timeout)
         if v2 == "unsat":
